@@ -354,12 +354,53 @@ func vScenarioC18(rc *runCtx) {
 	var wins []window
 	done := 0
 	pm := []int{30, 100, 400}[tp.Draw("c18.rate", 3)]
+	// the moment the pause begins may be one at which the peer has been quiet for a while already: the
+	// server's disk is slow for one operation (a write when it receives, a read when it sends; no timer of
+	// the server runs meanwhile) from `lead` before the pause until `extra` after it. lead and extra are
+	// below the timeout; lead + pause may exceed it, which the pause excuses: the read that expires while
+	// the question is open is tried again.
+	hiccup := tp.Bool("c18.hiccup", 350)
+	if _, enum := rc.enumInt("enum_kind"); hiccup && !enum && tp.Bool("c18.hiccup.expiry", 500) {
+		// the interesting region: the read that began before the slow operation expires while the question is open
+		frac = 0.8
+		d = time.Duration(float64(T) * frac)
+		band = "short"
+	}
+	lead := time.Duration(float64(T) * []float64{0.3, 0.5, 0.7}[tp.Draw("c18.lead", 3)])
+	extra := time.Duration(float64(T) * []float64{0, 0.1, 0.3}[tp.Draw("c18.extra", 3)])
+	var stallFor time.Duration
+	if hiccup {
+		df := &verifsim.DiskFaults{}
+		hook := func(call int, f *os.File) {
+			if stallFor > 0 && verifsim.CurProc() == x.server {
+				sl := stallFor
+				stallFor = 0
+				rc.fault("server-disk-slow-before-pause")
+				verifsim.Sleep(sl)
+			}
+		}
+		if cfg.upload {
+			df.OnWrite = hook
+		} else {
+			df.OnRead = hook
+		}
+		w.Disk = df
+	}
 	var arm func()
 	arm = func() {
 		vOnChunk(rc, x, armed, pm, func() {
 			rc.fault("pause")
 			x.paused = true
+			if hiccup {
+				stallFor = lead + d + extra + 200*time.Millisecond
+			}
 			w.Go("user", x.client, func() {
+				if hiccup {
+					verifsim.Sleep(lead)
+				}
+				if !x.filter.IsTransferringFiles() {
+					return
+				}
 				x.kbd.Write([]byte{0x03})
 				from := w.Now() + 150*time.Millisecond
 				verifsim.Sleep(d)
